@@ -21,6 +21,7 @@ const (
 	kCall
 	kBranch
 	kRet
+	kHalt // C03 reading: a parse error was recorded, the run is not continued
 )
 
 type rhsKind int
@@ -79,6 +80,7 @@ type node struct {
 	toIface bool
 	strict  bool // kStore: the value must be usable (a strict cell class)
 	mode    int  // kStore: storeStrict, storeClean, storeDirty
+	ptype   int  // rConv: number of the operand's pointer type; kTypeTest: number of the target pointer type (-1: none)
 	site    *site
 	callee  *fnInfo
 	args    []opnd
@@ -107,14 +109,14 @@ type varInfo struct {
 }
 
 type convSite struct {
-	fn      *fnInfo
-	key     string
-	text    string
-	context string // return, assign, field, append, arg, literal-field, element, conversion
-	pos     token.Pos
-	node    *node // the kSet rConv node (nil when the operand is certainly non-nil)
-	certain bool  // operand certainly non-nil (filled by the analysis)
-	dirtyRet bool // the converted value goes straight to a result that the function declares dirty
+	fn       *fnInfo
+	key      string
+	text     string
+	context  string // return, assign, field, append, arg, literal-field, element, conversion
+	pos      token.Pos
+	node     *node // the kSet rConv node (nil when the operand is certainly non-nil)
+	certain  bool  // operand certainly non-nil (filled by the analysis)
+	dirtyRet bool  // the converted value goes straight to a result that the function declares dirty
 }
 
 type cfg struct {
@@ -377,6 +379,7 @@ func (b *builder) convert(op opnd, from, to types.Type, e ast.Expr, context stri
 	}
 	t := b.temp(to)
 	cs.node = b.set(t, rConv, op.v, e.Pos())
+	cs.node.ptype = b.pk.typeID(from)
 	return opnd{opVar, t}
 }
 
